@@ -17,6 +17,16 @@ CHECKS = {
     ),
 }
 
+CHECKS["C01"] = (
+    "bounded-exhaustive enumeration of (interface x configuration) on the implementation, reference-model comparison",
+    "All interfaces of 1 parameter over a ~200-kind alphabet and all 2-/3-tuples over an 11-kind collision alphabet (thorough: all pairs over "
+    "the full alphabet and 4-tuples) x all 24 configurations are emitted and parsed back by the real code; each field of each parameter is "
+    "compared with a projection reference model. Exhaustive inside the stated alphabet, which is how 'for all interfaces x styles x flags' "
+    "is made finite; recorded genuine defects are matched by signature patterns and everything else is an alarm.",
+    "mc/oracle.py projection and normalisation; small-scope hypothesis over parameter kinds and count",
+    "DESIGN.md section 3, C01",
+)
+
 PENDING_REASON = "check not built yet in this revision (planned, see DESIGN.md section 3); no claim is made"
 
 
